@@ -156,6 +156,16 @@ check("C10", "reader-sim", "exploration",
       "The '.'/'..' feature of a DOT_ENTRIES reader is documented as history dependent and excluded; faults hit calls, not construction.",
       "deterministic simulation: seeded API-history search with transient I/O / allocation faults vs fresh-reader reference model", "DESIGN.md 5/C10")
 
+check("C19", "copy-sim", "exploration",
+      "For each copyable libsquashfs object kind (5 compressors x 2 directions, fragment table, id table, meta reader, dir reader with and "
+      "without dot-entry cache, data reader, xattr reader, read-only native file, xattr writer): seeded pre-copy history, sqfs_copy, "
+      "seeded interleaving of operations on original and copy, release in either order with operations on the survivor. Reference: twin "
+      "objects with the same history, one fed exactly the original's operations, one exactly the copy's. Fault: j-th allocation inside the "
+      "copy hook fails (copy must be NULL, original must keep matching its twin). Half the batches run sanitized; a fault-free "
+      "LeakSanitizer pass flags leaks through copy hooks; uncopyable objects and writable files must refuse.",
+      "Operations are the harness's choice of public API calls per kind; twins must agree before the copy (checked).",
+      "deterministic simulation: seeded operation-history search with allocation faults vs twin reference model", "DESIGN.md 5/C19")
+
 PENDING = ["C01","C02","C03","C04","C05","C06","C07","C08","C10","C11","C12","C13","C14","C15","C19"]
 NA_REASONS = {
  "C16": "pure relation between two text transducers (describe printer, pack-file tokenizer); no schedule, clock, fault, crash point or history in the statement - deciding it is input enumeration, which deterministic simulation does not do (DESIGN.md section 0)",
@@ -181,6 +191,7 @@ def main():
         "engines": [
             {"name": "tool-sim", "path": "simos/ + py/pipelines.py", "serves_properties": ["C01", "C02", "C03", "C04", "C05", "C06", "C07", "C08", "C15", "C11", "C12", "C13", "C14"], "kind_free_text": "each tool's real sources linked with simos under --wrap; one process per simulated run"},
             {"name": "reader-sim", "path": "scn/reader.c", "serves_properties": ["C10"], "kind_free_text": "libsquashfs readers over an in-memory file with fault hooks; thousands of API histories per second in one process"},
+            {"name": "copy-sim", "path": "scn/copy.c", "serves_properties": ["C19"], "kind_free_text": "object copies vs twin objects, many lives per process, restart after a crash"},
             {"name": "pool-sim", "path": "scn/pool.c", "serves_properties": ["C09"], "kind_free_text": "real threadpool.c under the simos scheduler, many runs per process"},
         ],
         "checks": [CHECKS[k] for k in sorted(CHECKS)],
